@@ -274,7 +274,7 @@ func ErrClass(msg string) string {
 		return "grouping-not-unique"
 	case strings.Contains(msg, "same labelset"):
 		return "duplicate-labelset"
-	case strings.Contains(msg, "context canceled"), strings.Contains(msg, "deadline exceeded"):
+	case strings.Contains(msg, "context canceled"), strings.Contains(msg, "deadline exceeded"), strings.Contains(msg, "query was canceled"):
 		return "canceled"
 	case strings.Contains(msg, "injected"):
 		return "storage"
